@@ -60,9 +60,20 @@ fn build_schema(spec: &J) -> Result<Built, String> {
 					r.fields[0].name = format!("{original}_before_edit");
 				}
 				let _ = graph.canonical_form_rabin_fingerprint();
-				let _ = serde_json::to_string(&graph);
-				if let serde_avro_fast::schema::RegularType::Record(r) = &mut graph.nodes_mut()[at].type_ {
-					r.fields[0].name = original;
+				// ... and through its own JSON text, so that the SchemaMut is a PARSED one (it then carries the text it was parsed from)
+				if let Ok(text) = serde_json::to_string(&graph) {
+					if let Ok(parsed) = text.parse::<SchemaMut>() {
+						if parsed.nodes().len() == graph.nodes().len() {
+							let _ = parsed.canonical_form_rabin_fingerprint();
+							graph = parsed;
+						}
+					}
+				}
+				let at = graph.nodes().iter().position(|n| matches!(&n.type_, serde_avro_fast::schema::RegularType::Record(r) if !r.fields.is_empty() && r.fields[0].name.ends_with("_before_edit")));
+				if let Some(at) = at {
+					if let serde_avro_fast::schema::RegularType::Record(r) = &mut graph.nodes_mut()[at].type_ {
+						r.fields[0].name = original;
+					}
 				}
 			}
 		}
